@@ -327,7 +327,7 @@ func init() {
 			"only the first LENGTH bits of the output are compared; bit lengths are within 0..8*len(buffer)",
 			"crypto/aes is the trusted AES block primitive",
 		},
-		Oracles: map[string]func(*core.Ctx, *core.Case){"cipher": c06Cipher, "keystream": c06Keystream, "cipher-seq": c06CipherSeq},
+		Oracles: map[string]func(*core.Ctx, *core.Case){"cipher": c06Cipher, "keystream": c06Keystream, "cipher-seq": c06CipherSeq, "concurrent": c06Concurrent},
 		Floors: func(tier string, cov map[string]map[string]int64, cnt map[string]int64) []string {
 			var f []string
 			if cnt["reference_kat_vectors_passed"] == 0 {
@@ -464,6 +464,7 @@ func init() {
 				}})
 			}
 		}
+		us = append(us, cryptoConcurrentUnits("concurrent")...)
 		return us
 	}
 	core.Register(p)
@@ -563,7 +564,7 @@ func init() {
 			"the MAC of a zero-length message is the value the specifications' formulae give (f9: D=1, no message block; CMAC over the 8-octet header; EIA3: z[0] xor z[32])",
 			"bit lengths are within 0..8*len(buffer); the message is the first LENGTH bits of the buffer",
 		},
-		Oracles: map[string]func(*core.Ctx, *core.Case){"mac": c07Mac, "mac-seq": c07MacSeq},
+		Oracles: map[string]func(*core.Ctx, *core.Case){"mac": c07Mac, "mac-seq": c07MacSeq, "concurrent": c07Concurrent},
 		Floors: func(tier string, cov map[string]map[string]int64, cnt map[string]int64) []string {
 			var f []string
 			if cnt["reference_kat_vectors_passed"] == 0 {
@@ -692,6 +693,7 @@ func init() {
 				}})
 			}
 		}
+		us = append(us, cryptoConcurrentUnits("concurrent")...)
 		return us
 	}
 	core.Register(p)
